@@ -9,6 +9,7 @@ CONSTANTS NF,            \* number of named fragments F1..FNF (Fi may only sprea
                          \* the NAMES -- which decide every sorted() in the generator -- are the separate variable nm)
           MaxOps,        \* operations in the queries file
           MaxFields,     \* root fields per operation
+          NamePerms,     \* the namings explored: a set of permutations of Frags (all of them, or identity + reverse for NF = 4)
           Deviations     \* subset of {"exclude_all_unpacked", "no_dep_closure", "set_iteration"}: pre-fix behaviours
 
 Types == {"J", "I", "A"}                 \* interface J, interface I implements J, object A implements I & J
@@ -63,7 +64,7 @@ FieldRes(D, fld) == [ct \in ClassTypes(D, fld) |->
 \* ---- actions ------------------------------------------------------------------------------------------
 Init ==
   /\ defs \in FragDefs
-  /\ nm \in Perms(Frags)
+  /\ nm \in NamePerms
   /\ ops \in UNION {[1..n -> OpsOf] : n \in 1..MaxOps}
   /\ phase = "adding" /\ done = 0 /\ unpacked = {} /\ mixins = {} /\ opBases = <<>>
   /\ names = {} /\ deps = <<>> /\ order = <<>> /\ module = {}
